@@ -109,7 +109,8 @@ SnapAfter(S, f) == [u \in 1..MaxUid |->
 ---------------------------------------------------------------------------
 \* a directory that is already indexed: every page holds one note with a ZID of day 1
 Note0(p) == [uid |-> p, zid |-> << 1, p - 1 >>, ver |-> 0, kind |-> "-", prio |-> "",
-             md |-> (IF "StartStamped" \in Feature THEN 1 ELSE 0), ld |-> 0, gap |-> 1, nl |-> 1]
+             md |-> (IF "StartStamped" \in Feature THEN 1 ELSE 0), ld |-> 0, gap |-> 1,
+             nl |-> (IF "StartMulti" \in Feature THEN 2 ELSE 1)]
 Page0(p) == [ex |-> TRUE, broken |-> FALSE, notes |-> << Note0(p) >>]
 InitIndexed ==
         /\ files = [p \in Pages |-> Page0(p)] /\ db = [p \in Pages |-> Compile(Page0(p), 1)]
